@@ -762,6 +762,10 @@ class Channel:
                 except self.gateway.execmodel.queue.Empty:
                     if not (self._closed or self._receiveclosed.is_set()):
                         _callbacks[self.id] = (callback, endmarker, self._strconfig)
+                    elif endmarker is not NO_ENDMARKER_WANTED:
+                        # closed under our feet by a close() in another thread,
+                        # which saw neither our callback nor a queue to mark
+                        callback(endmarker)
                     break
                 else:
                     if olditem is ENDMARKER:
